@@ -36,6 +36,9 @@ def _num(v):
     except ValueError:
         return None
 
+import os as _os
+_REPO = _os.path.realpath(_os.environ.get("SVX_REPO", "/repo")) + "/"
+
 
 class NativeK(KBase):
     mode = "native"
@@ -50,6 +53,7 @@ class NativeK(KBase):
         self.saved: dict = {}
         self.arrays: dict = {}
         self._n = 0
+        self._n_interior_bias = model is None or not model
         self.ints = {k: v for k, v in self.model.items() if isinstance(v, int) and "[" not in k}
         # the symbolic machine epsilon chosen by the solver selects the precision of the replay
         if self.model.get("machine_eps", 0) and float(self.model["machine_eps"]) > 1e-10:
@@ -60,7 +64,7 @@ class NativeK(KBase):
     def ext(self, name, lo=1):
         v = self.model.get(name)
         if v is None:
-            v = lo + int(self.rng.integers(3, 7))
+            v = lo + int(self.rng.integers(4, 9))
         v = int(v)
         self.ints[name] = v
         return v
@@ -116,6 +120,32 @@ class NativeK(KBase):
         except IndexError:
             pass
 
+    def array(self, name, shape, init=None, kind="real"):
+        shape = tuple(int(s) for s in shape)
+        if kind == "int":
+            arr = np.zeros(shape, dtype=np.int64)
+        else:
+            arr = self.rng.normal(size=shape).astype(self.real_t)
+        for idx in np.ndindex(*shape):
+            if init is not None:
+                arr[idx] = init(idx)
+            else:
+                v = self.model.get(f"{name}[{', '.join(map(str, idx))}]")
+                if v is not None:
+                    arr[idx] = v
+        self.saved[id(arr)] = arr.copy()
+        self.arrays[name] = (arr, kind, shape)
+        return arr
+
+    def aval(self, arr, idx):
+        return float(arr[tuple(idx)])
+
+    def aold(self, arr, idx):
+        return float(self.saved[id(arr)][tuple(idx)])
+
+    def array_unchanged(self, clause, arr, props=None):
+        self.unchanged(clause, arr, props)
+
     def cell(self, shape, name="c", margin=0):
         self._n += 1
         c = []
@@ -126,7 +156,10 @@ class NativeK(KBase):
                 if int(n) - margin <= margin:
                     self.clauses.append(("requires", None, "grid too small for an interior cell"))
                     raise _PreconditionUnmet()
-                v = int(self.rng.integers(margin, int(n) - margin))
+                lo, hi = margin, int(n) - margin
+                if self._n_interior_bias and hi - lo > 4 and self.rng.random() < 0.6:
+                    lo, hi = lo + 2, hi - 2  # bias the sample towards cells whose stencils are interior
+                v = int(self.rng.integers(lo, hi))
             self.ints[key] = int(v)
             c.append(int(v))
         # model cells that mention this Skolem cell
@@ -149,18 +182,27 @@ class NativeK(KBase):
             self.clauses.append(("requires", None, "precondition not met by this input (clauses below are void)"))
             raise _PreconditionUnmet()
 
+    def havoc(self, arr):
+        arr[...] = self.rng.normal(size=arr.shape).astype(arr.dtype) * 3.0 + 1.0
+
     def case(self, guard):
         if bool(guard):
             yield True
 
     # -- observation ---------------------------------------------------------------------
-    def value(self, arr, c, part=None):
-        v = arr[tuple(c)]
+    @staticmethod
+    def _get(arr, c, part):
+        c = tuple(int(i) for i in c)
+        if any(i < 0 or i >= n for i, n in zip(c, arr.shape)):
+            return float("nan")  # outside the array: only meaningful under a guard that excludes it
+        v = arr[c]
         return float(v.real if part == "re" else v.imag) if part else float(v)
 
+    def value(self, arr, c, part=None):
+        return self._get(arr, c, part)
+
     def old(self, arr, c, part=None):
-        v = self.saved[id(arr)][tuple(c)]
-        return float(v.real if part == "re" else v.imag) if part else float(v)
+        return self._get(self.saved[id(arr)], c, part)
 
     def _name(self, clause):
         cs = cfg_str(self.cfg)
@@ -216,10 +258,13 @@ def run_unit_native(name, cfg, model=None, seed=0):
         pass
     except Exception as e:
         frames = traceback.extract_tb(e.__traceback__)
-        in_repo = any(f.filename.startswith("/repo/") for f in frames)
+        in_repo = any(f.filename.startswith(_REPO) for f in frames)
         exc = dict(type=type(e).__name__, msg=str(e)[:500], in_repo=in_repo,
                    tb="".join(traceback.format_exception(type(e), e, e.__traceback__))[-2000:])
-        K.clauses.append((K._name("no_exception"), False, f"real code raised {type(e).__name__}: {e}"[:600]))
+        if in_repo:
+            K.clauses.append((K._name("no_exception"), False, f"real code raised {type(e).__name__}: {e}"[:600]))
+        else:  # a defect of the contract / harness in native mode: never evidence about the code
+            K.clauses.append((K._name("harness_error"), None, f"{type(e).__name__}: {e}"[:600]))
     return dict(clauses=K.clauses, exception=exc, interpreted=sorted(set(INTERPRETED)))
 
 
